@@ -3,7 +3,7 @@
 //	gen --seed S --tier T   write case lines (inputs only)
 //	impl                    read case lines, run the real code, append " => result"
 //
-// Two line kinds (see notes/C10.md):
+// Three line kinds (see notes/C10.md; cc = goroutines sharing transformers and SRs, cc.go):
 //
 //	gt <tkind> <geom>                                   Geom.Transform with a synthetic transformer
 //	h <nSR> <def>.. | <nT> <s> <d>.. | <nC> <t> <x> <y>..   history of calls over a pool of transformers
